@@ -12,14 +12,6 @@ open Optyx.Generated.PinsC06
 theorem pin_scipy_solver_solve_scipy_anchor : pin_scipy_solver_solve_scipy = "e7c69a3a73fa09d9" := rfl
 /-- `solve_lp` (solvers/lp_solver.py) -/
 theorem pin_lp_solver_solve_lp_anchor : pin_lp_solver_solve_lp = "244fed8ae6b2b560" := rfl
-/-- `compile_expression` (core/compiler.py) -/
-theorem pin_compiler_compile_expression_anchor : pin_compiler_compile_expression = "db0179ead8cd3aa4" := rfl
-/-- `_param_value` (core/compiler.py) -/
-theorem pin_compiler_param_value_anchor : pin_compiler_param_value = "79e7de7cdae81265" := rfl
-/-- `compile_to_dict_function` (core/compiler.py) -/
-theorem pin_compiler_compile_to_dict_function_anchor : pin_compiler_compile_to_dict_function = "9c1b94dcff42b825" := rfl
-/-- `CompiledExpression` (core/compiler.py) -/
-theorem pin_compiler_CompiledExpression_anchor : pin_compiler_CompiledExpression = "46e07aadf48eb02a" := rfl
 /-- `extract_linear_coefficient` (analysis.py) -/
 theorem pin_analysis_extract_linear_coefficient_anchor : pin_analysis_extract_linear_coefficient = "8356a37b6239dea1" := rfl
 /-- `extract_constant_term` (analysis.py) -/
@@ -30,7 +22,7 @@ theorem pin_constraints_Constraint_get_variables_anchor : pin_constraints_Constr
 theorem pin_constraints_make_constraint_anchor : pin_constraints_make_constraint = "f94a0d73e3549836" := rfl
 
 /-- every function the model of C06 transcribes (and no translator covers) is the one it was read from -/
-theorem anchors : pin_scipy_solver_solve_scipy = "e7c69a3a73fa09d9" ∧ pin_lp_solver_solve_lp = "244fed8ae6b2b560" ∧ pin_compiler_compile_expression = "db0179ead8cd3aa4" ∧ pin_compiler_param_value = "79e7de7cdae81265" ∧ pin_compiler_compile_to_dict_function = "9c1b94dcff42b825" ∧ pin_compiler_CompiledExpression = "46e07aadf48eb02a" ∧ pin_analysis_extract_linear_coefficient = "8356a37b6239dea1" ∧ pin_analysis_extract_constant_term = "56af33ef128b1672" ∧ pin_constraints_Constraint_get_variables = "1984ddae9519490c" ∧ pin_constraints_make_constraint = "f94a0d73e3549836" :=
-  ⟨pin_scipy_solver_solve_scipy_anchor, pin_lp_solver_solve_lp_anchor, pin_compiler_compile_expression_anchor, pin_compiler_param_value_anchor, pin_compiler_compile_to_dict_function_anchor, pin_compiler_CompiledExpression_anchor, pin_analysis_extract_linear_coefficient_anchor, pin_analysis_extract_constant_term_anchor, pin_constraints_Constraint_get_variables_anchor, pin_constraints_make_constraint_anchor⟩
+theorem anchors : pin_scipy_solver_solve_scipy = "e7c69a3a73fa09d9" ∧ pin_lp_solver_solve_lp = "244fed8ae6b2b560" ∧ pin_analysis_extract_linear_coefficient = "8356a37b6239dea1" ∧ pin_analysis_extract_constant_term = "56af33ef128b1672" ∧ pin_constraints_Constraint_get_variables = "1984ddae9519490c" ∧ pin_constraints_make_constraint = "f94a0d73e3549836" :=
+  ⟨pin_scipy_solver_solve_scipy_anchor, pin_lp_solver_solve_lp_anchor, pin_analysis_extract_linear_coefficient_anchor, pin_analysis_extract_constant_term_anchor, pin_constraints_Constraint_get_variables_anchor, pin_constraints_make_constraint_anchor⟩
 
 end Optyx.Props.PinsC06
